@@ -37,7 +37,7 @@ ASSUMPTIONS = [
 OBS = ("fwd", "inv", "fwd_bwd")
 SIGMA_Q = ("eval", "train", "cache_on", "cache_off", "fwd", "inv", "load_A", "step", "to_double", "dtype_rt", "fwd_bwd", "load_B")
 SIGMA_T = SIGMA_Q + ("sgd", "copy")
-SIGMA_NODT = ("eval", "train", "cache_on", "cache_off", "fwd", "inv", "load_A", "step", "fwd_bwd")
+SIGMA_NODT = ("eval", "train", "cache_off", "fwd", "inv", "load_A", "step")
 CAUSES = {"load_A": "load", "load_B": "load", "step": "update", "sgd": "update", "dtype_rt": "dtype_rt", "to_double": "to_double", "copy": "copy", "fwd_bwd": "fwd_bwd"}
 
 CLASSES = ["LULinear", "QRLinear", "SVDLinear", "NaiveLinear", "OneByOneConvolution"]
@@ -46,8 +46,10 @@ F = 3
 
 def bounds(tier, seed):
     return {
-        "alphabet": list(SIGMA_Q if tier == "quick" else SIGMA_T),
-        "depth_full_alphabet": 4 if tier == "quick" else 5,
+        "alphabet_12": list(SIGMA_Q),
+        "depth_alphabet_12": 4 if tier == "quick" else 5,
+        "alphabet_14_thorough": list(SIGMA_T),
+        "depth_alphabet_14": None if tier == "quick" else 4,
         "depth_reduced_alphabet": None if tier == "quick" else 6,
         "reduced_alphabet": list(SIGMA_NODT),
         "classes": CLASSES,
@@ -392,17 +394,20 @@ def histories(sigma, depth):
 
 def units(tier, seed):
     us = []
-    sigma = SIGMA_Q if tier == "quick" else SIGMA_T
-    depth = 4 if tier == "quick" else 5
     for cls in CLASSES:
         for nested in (False, True):
             for init_cache in (True, False):
                 # split by first operation so that units are of similar size
-                for first in sigma:
-                    us.append(("hist", cls, nested, init_cache, "full", first, depth, seed))
-                if tier == "thorough":
+                if tier == "quick":
+                    for first in SIGMA_Q:
+                        us.append(("hist", cls, nested, init_cache, "Q", first, 4, seed))
+                else:
+                    for first in SIGMA_Q:
+                        us.append(("hist", cls, nested, init_cache, "Q", first, 5, seed))
+                    for first in SIGMA_T:
+                        us.append(("hist", cls, nested, init_cache, "T", first, 4, seed))
                     for first in SIGMA_NODT:
-                        us.append(("hist6", cls, nested, init_cache, "nodt", first, 6, seed))
+                        us.append(("hist6", cls, nested, init_cache, "N", first, 6, seed))
     for cls in CLASSES:
         for nested in (False, True):
             us.append(("bfs", cls, nested, seed, 4000 if tier == "quick" else 20000))
@@ -414,15 +419,15 @@ def run_unit(unit):
         _, cls, nested, seed, cap = unit
         return run_bfs(cls, nested, seed, cap)
     kind, cls, nested, init_cache, which, first, depth, seed = unit
-    sigma = {"full": None, "nodt": SIGMA_NODT}[which]
-    if sigma is None:
-        sigma = SIGMA_Q if (kind == "hist" and depth == 4) else SIGMA_T
+    sigma = {"Q": SIGMA_Q, "T": SIGMA_T, "N": SIGMA_NODT}[which]
     res = new_result()
     for hist in histories(sigma, depth):
         if hist[0] != first:
             continue
         if kind == "hist6" and len(hist) != 6:
             continue  # shorter ones are covered by the full-alphabet pass
+        if which == "T" and not any(o in ("sgd", "copy") for o in hist):
+            continue  # covered by the 12-letter pass
         vs, info = run_history(cls, nested, init_cache, hist, seed)
         if vs is None:
             continue
